@@ -1,6 +1,7 @@
 package checks
 
 import (
+	"bufio"
 	"bytes"
 	"fmt"
 	"io"
@@ -184,8 +185,30 @@ func fromProto(m *proto.Message) (resp.Value, error) {
 }
 
 // parseAll drives the real parser over a scripted reader and compares with the expected values.
-func parseAll(r *scriptedReader, want []resp.Value) (string, string) {
-	p := proto.NewParserWithReader(r)
+// wrap: 0 = the reader as it is, 1 = behind a bufio.Reader with the minimal buffer, 2 = behind a default bufio.Reader
+// (what a caller does who wraps its connection). With deferred, the returned messages are only inspected after the
+// whole stream was parsed: a value must not change when the parser reads on.
+func parseAll(r *scriptedReader, want []resp.Value, wrap int, deferred bool) (string, string) {
+	var rd io.Reader = r
+	switch wrap {
+	case 1:
+		rd = bufio.NewReaderSize(r, 16)
+	case 2:
+		rd = bufio.NewReader(r)
+	}
+	p := proto.NewParserWithReader(rd)
+	var msgs []*proto.Message
+	inspect := func(i int, m *proto.Message) (string, string) {
+		w := want[i]
+		got, err := fromProto(m)
+		if err != nil {
+			return "bad-tree", fmt.Sprintf("value %d (%s): %v", i, w, err)
+		}
+		if !got.Equal(w) {
+			return "mismatch:" + string(rune(w.K)), fmt.Sprintf("value %d: want %s got %s", i, w, got)
+		}
+		return "", ""
+	}
 	for i, w := range want {
 		m, err := p.Next()
 		if err != nil {
@@ -194,12 +217,12 @@ func parseAll(r *scriptedReader, want []resp.Value) (string, string) {
 		if m == nil {
 			return "early-eos", fmt.Sprintf("value %d (%s): end of stream reported early", i, w)
 		}
-		got, err := fromProto(m)
-		if err != nil {
-			return "bad-tree", fmt.Sprintf("value %d (%s): %v", i, w, err)
+		if deferred {
+			msgs = append(msgs, m)
+			continue
 		}
-		if !got.Equal(w) {
-			return "mismatch:" + string(rune(w.K)), fmt.Sprintf("value %d: want %s got %s", i, w, got)
+		if sig, det := inspect(i, m); sig != "" {
+			return sig, det
 		}
 	}
 	m, err := p.Next()
@@ -209,6 +232,11 @@ func parseAll(r *scriptedReader, want []resp.Value) (string, string) {
 	if m != nil {
 		got, _ := fromProto(m)
 		return "extra-value", fmt.Sprintf("after the last value: extra value %s", got)
+	}
+	for i, m := range msgs {
+		if sig, det := inspect(i, m); sig != "" {
+			return sig + ":inspected-after-end", det + " (inspected after the whole stream was parsed)"
+		}
 	}
 	return "", ""
 }
@@ -234,19 +262,32 @@ func runC02(t *testing.T, tape *sim.Tape, tier string) *Outcome {
 		want = append(want, v)
 		data = append(data, v.Encode()...)
 	}
-	check := func(r *scriptedReader, desc string) {
+	wrapNames := []string{"", " behind bufio(16)", " behind bufio(4096)"}
+	checkW := func(r *scriptedReader, desc string, wrap int, deferred bool) {
 		o.Evals++
-		if sig, det := parseAll(r, want); sig != "" {
+		if deferred {
+			desc += " values inspected at the end"
+		}
+		desc += wrapNames[wrap]
+		if wrap > 0 {
+			o.stat("reader_behind_bufio", 1)
+		}
+		if sig, det := parseAll(r, want, wrap, deferred); sig != "" {
 			o.violate("chunk:"+sig, "%s; stream %q (%d bytes), delivery %s", det, clip(data, 120), len(data), desc)
 		}
 		o.Hashes = append(o.Hashes, hash64(desc+string(data)))
 	}
+	check := func(r *scriptedReader, desc string) { checkW(r, desc, 0, false) }
 	// whole
 	check(&scriptedReader{data: data}, "whole")
+	checkW(&scriptedReader{data: data}, "whole", 1, true)
+	checkW(&scriptedReader{data: data, piggy: true}, "whole+EOF", 2, true)
 	// every 2-way split (streams up to 4 KiB), both end-of-stream styles alternate
 	if len(data) <= 4096 {
 		for c := 1; c < len(data); c++ {
 			check(&scriptedReader{data: data, cuts: []int{c}, piggy: c%2 == 0}, fmt.Sprintf("split@%d", c))
+			// the same split seen through a buffered reader, values inspected only after the stream was parsed
+			checkW(&scriptedReader{data: data, cuts: []int{c}, piggy: c%4 < 2}, fmt.Sprintf("split@%d", c), 1+c%2, true)
 		}
 		o.stat("two_way_splits", len(data)-1)
 		check(&scriptedReader{data: data, one: true}, "all-1-byte")
@@ -278,7 +319,7 @@ func runC02(t *testing.T, tape *sim.Tape, tier string) *Outcome {
 		if piggy {
 			o.stat("eof_piggyback", 1)
 		}
-		check(&scriptedReader{data: data, cuts: cuts, piggy: piggy}, fmt.Sprintf("cuts%v piggy=%t", cuts, piggy))
+		checkW(&scriptedReader{data: data, cuts: cuts, piggy: piggy}, fmt.Sprintf("cuts%v piggy=%t", cuts, piggy), tape.Draw(3, "wrap"), tape.Draw(2, "deferred") == 1)
 		o.stat("kway_partitions", 1)
 		for _, c := range cuts {
 			if c > 0 && c < len(data) && data[c-1] == '\r' && data[c] == '\n' {
@@ -302,7 +343,7 @@ func init() {
 	register(&Check{
 		ID: "C02", Bubble: false, Run: runC02,
 		Runs:   map[string]int{"quick": 6000, "thorough": 200000},
-		Rule:   "a case is one (value sequence, read partition) pair: every 2-way split and the all-1-byte delivery of each generated stream <= 4 KiB plus 4 seeded k-way partitions biased to structural offsets; distinct = distinct (stream, partition) hashes; non-trivial = stream longer than 4 bytes",
+		Rule:   "a case is one (value sequence, read partition) pair: every 2-way split and the all-1-byte delivery of each generated stream <= 4 KiB plus 4 seeded k-way partitions biased to structural offsets; every split is also delivered through a bufio.Reader (16-byte and default buffer) in front of the chunking reader with the returned messages inspected only after the whole stream was parsed (a parsed value must not change when the parser reads on), end of stream arriving alone or together with the last bytes; distinct = distinct (stream, partition) hashes; non-trivial = stream longer than 4 bytes",
 		Real:   []string{"redis/proto parser (NewParserWithReader, Next)"},
 		Stub:   []string{"transport: scripted io.Reader deciding read sizes and end-of-stream style"},
 		Assume: []string{"readers never return (0, nil)"},
